@@ -278,6 +278,70 @@ def check_resolver_shape(res: Result, repo, prop="C20"):
 from ..framework_rules import check_active_cursor, check_name_sanitised
 
 
+def check_reading_search(res, repo, hr):
+    """R-SEARCH: Hexital.reading, evaluated over a Hexital with three candle managers (default first) and every combination of
+    `this manager's candles hold / do not hold the reading`, returns the first reading that is not None, asked with the caller's
+    name and index (convsem interpreter: the lists and readings are opaque symbols)"""
+    import itertools
+
+    from .. import convsem as cs
+
+    bad = None
+    n_ok = 0
+    VALUES = {"readings that are plain numbers": (1.5, 2.5, 3.5), "readings that are falsy but present (0.0, False, {})": (0.0, False, {})}
+    for (vlabel, vals), registered, combo in itertools.product(VALUES.items(), (False, True), itertools.product((0, 1), repeat=3)):
+        it = cs.Interp(repo, "hexital.core.hexital", "Hexital")
+        lists = [cs.Sym(f"candles of manager {i}", "list") for i in range(3)]
+        mgrs = [cs.ObjV(f"manager {i}", {"candles": lists[i]}, "CandleManager") for i in range(3)]
+        try:
+            default = it.module_const("DEFAULT_CANDLES")
+        except cs.Undecided:
+            default = cs._MISSING
+        if default is cs._MISSING:
+            res.errors.append(f"{hr.where} R-SEARCH: DEFAULT_CANDLES cannot be resolved from hexital.core.hexital")
+            return
+        readings = [vals[i] if c else None for i, c in enumerate(combo)]
+        nm, ix = "IND_1.sub", cs.Sym("index", "int")
+        # a registered indicator carries the timeframe its manager gave it; with a strategy timeframe that is also the key of another manager
+        ind = cs.ObjV("indicator IND_1", {"timeframe": "T5", "name": "IND_1"}, "Indicator")
+        selfo = cs.ObjV("self", {"_candles": {default: mgrs[0], "T5": mgrs[1], "H1": mgrs[2]}, "_indicators": {"IND_1": ind} if registered else {}, "timeframe": "T5"}, "Hexital")
+        wrong_args = []
+
+        def rbi(args, kw, lists=lists, readings=readings, nm=nm, ix=ix, wrong_args=wrong_args):
+            a = list(args)
+            for k in ("candles", "name", "index"):
+                if k in kw:
+                    a.append(kw[k])
+            if not a or not any(a[0] is L for L in lists):
+                raise cs.Undecided("reading_by_index on something that is not a manager's candle list")
+            if len(a) < 3 or a[1] != nm or a[2] is not ix:
+                wrong_args.append(a[1:])
+            return readings[[i for i, L in enumerate(lists) if a[0] is L][0]]
+
+        it.intercept["reading_by_index"] = rbi
+        want = next((r for r in readings if r is not None), None)
+        label = f"{vlabel}, present on managers " + (", ".join(str(i) for i, c in enumerate(combo) if c) or "none") + (", name registered as an indicator" if registered else "")
+        try:
+            got = it.call_function(it.method("reading"), [nm, ix], {}, bound_first=selfo)
+        except cs.Undecided as ex:
+            res.errors.append(f"{hr.where} R-SEARCH Hexital.reading: cannot evaluate the search ({ex}); the rule cannot decide it")
+            return
+        except cs.Raised as ex:
+            bad = f"{label}: Hexital.reading raises {ex.what}"
+            break
+        if wrong_args:
+            bad = f"{label}: the look-up is not made with the caller's name and index (reading_by_index(.., {wrong_args[0]!r}))"
+            break
+        if got is not want:
+            bad = f"{label}: Hexital.reading returns {got!r}, the first reading that is not None is {want!r}"
+            break
+        n_ok += 1
+    if bad is None:
+        res.ok("R-SEARCH", {"site": hr.where, "why": f"{n_ok} presence combinations over three managers: the first reading that is not None (default manager first) is returned, asked with the caller's name and index"}, nontrivial="Hexital.reading")
+    else:
+        res.fail("R-SEARCH", finding("C20", "R-SEARCH", hr, hr.node, f"{bad}: a reading that lives on another timeframe's candles is not found", construct="Hexital.reading: search over managers"))
+
+
 @register("C20")
 def run(repo, tier) -> Result:
     res = Result("C20", tier)
@@ -373,31 +437,7 @@ def run(repo, tier) -> Result:
         res.fail("R-CONTRACT", finding("C20", "R-CONTRACT", rc, rc.node, "reading_count no longer counts trailing candles up to the first missing reading", construct="reading_count: reversed scan, is None"))
     # Hexital.reading finds the reading wherever its indicator's candles live: default manager first, then every manager
     hr = repo.method("hexital.core.hexital", "Hexital", "reading")
-    rbi_calls = [c for c in calls_in(hr.node) if call_name(c) == "reading_by_index"]
-    _defs = {n.targets[0].id: ast.unparse(n.value) for n in ast.walk(hr.node) if isinstance(n, ast.Assign) and len(n.targets) == 1 and isinstance(n.targets[0], ast.Name)}
-
-    def _covers_all(it):
-        t = ast.unparse(it)
-        t = _defs.get(t, t)
-        return "self._candles.values()" in t
-
-    loops = [n for n in hr.node.body if isinstance(n, ast.For) and _covers_all(n.iter)]
-    ok = False
-    if loops and len(rbi_calls) >= 1:
-        lv = ast.unparse(loops[0].target)
-        in_loop = [c for c in rbi_calls if c in list(ast.walk(loops[0]))]
-        def _args_ok(c, lst):
-            a = [ast.unparse(x) for x in c.args] + [f"{k.arg}={ast.unparse(k.value)}" for k in c.keywords]
-            return a[:2] == [lst, "name"] and ("index=index" in a or (len(a) > 2 and a[2] == "index"))
-        ok = len(in_loop) == 1 and _args_ok(in_loop[0], f"{lv}.candles") and all(_args_ok(c, f"{lv}.candles") or _args_ok(c, "self._candles[DEFAULT_CANDLES].candles") for c in rbi_calls)
-        rets = [n for n in ast.walk(hr.node) if isinstance(n, ast.Return)]
-        ok = ok and all(isinstance(r.value, ast.Name) or (isinstance(r.value, ast.Constant) and r.value.value is None) for r in rets)
-        early = [n for n in hr.node.body if isinstance(n, ast.If) and any(isinstance(x, ast.Return) for x in ast.walk(n)) and "is not None" not in ast.unparse(n.test)]
-        ok = ok and not early
-    if ok:
-        res.ok("R-SEARCH", {"site": hr.where, "why": "looks the name up on every candle manager (default first) with the caller's index and returns the first reading that is not None"}, nontrivial="Hexital.reading")
-    else:
-        res.fail("R-SEARCH", finding("C20", "R-SEARCH", hr, hr.node, "Hexital.reading must look the name up on every candle manager (for ... in self._candles.values(): reading_by_index(manager.candles, name, index=index)) and return the first non-None reading; a lookup through derived manager keys can miss the indicator's own candles", construct="Hexital.reading: search over managers"))
+    check_reading_search(res, repo, hr)
     # prev_reading offsets
     hp = repo.method("hexital.core.hexital", "Hexital", "prev_reading")
     c = [x for x in calls_in(hp.node) if call_target(x) == "self.reading"]
